@@ -385,7 +385,13 @@ async fn main() {
                         if c == AddClass::OffChain && !sig_ok {
                             summary.count("stored_unvalidated_offchain", edit);
                         }
-                        if *edit == "none" || *edit == "zero-merkle-root-field" {
+                        // an edit that found nothing to change (no second output of equal amount
+                        // in this world) leaves the original block: judged like "none"
+                        let noop = same_hash && !content_changed && b.signature == original.signature && b.merkle_root == original.merkle_root;
+                        if noop && *edit != "none" {
+                            summary.count("edit_was_noop", edit);
+                        }
+                        if *edit == "none" || *edit == "zero-merkle-root-field" || noop {
                             // a zeroed root field is refilled by Block::generate: same block
                             let want = if first == "original-first" { AddClass::Exists } else { AddClass::OnChain };
                             if first == "bootstrapped-node" && c != want {
